@@ -2,10 +2,11 @@
 (* Trace validation of the real training-data creator against TrainData.tla.  One event per run of                      *)
 (* TrainingDataCreator.create_traindata on an AUTO file depccg itself printed: the event carries the flat projection of *)
 (* every tree of the bank (computed by the harness from its own tree values, not from what the creator read), the two   *)
-(* cuts, and the four files the creator wrote, parsed line by line (`key # count`).  The files must be exactly what      *)
+(* cuts, and the six files the creator wrote, parsed line by line (`key # count`).  The files must be exactly what      *)
 (* TrainData!Expected says; nothing but the bank and the cuts is taken from the event to compute it.                     *)
 EXTENDS TrainData, IOUtils
 Trace == ndJsonDeserialize(IOEnv.TRACE_FILE)
+NoSpelling == [w \in {} |-> <<>>]      \* recorded leaves carry their own spelling (the characters of the word as the harness built it)
 VARIABLE l
 Say(id, clause) == PrintT("REJECT " \o ToString(id) \o " " \o clause)
 If(cond, name) == IF cond THEN {} ELSE {"DATA." \o name}
@@ -15,11 +16,13 @@ NoDup(rows) == Cardinality(Range(rows)) = Len(rows)
 Fails(e) ==
   IF e.e # "traindata" THEN {"MACHINERY.unknown_event"}
   ELSE IF e.raised THEN {"DATA.creator_raised"}
-  ELSE LET x == Expected(e.bank, e.ccut, e.wcut) IN
+  ELSE LET x == Expected(e.bank, e.ccut, e.wcut, e.acut) IN
             If(NoDup(e.target) /\ Range(e.target) = Rows1(x.target), "target_is_not_the_frequent_leaf_categories_with_counts")
        \cup If(NoDup(e.words) /\ Range(e.words) = Rows1(x.words), "words_is_not_the_frequent_lowercased_words_and_reserved_entries")
        \cup If(NoDup(e.seen) /\ Range(e.seen) = Rows2(x.seen), "seen_rules_is_not_the_binary_pairs_over_target_categories")
        \cup If(NoDup(e.unary) /\ Range(e.unary) = Rows2(x.unary), "unary_rules_is_not_every_unary_pair_parent_first")
+       \cup If(NoDup(e.prefixes) /\ Range(e.prefixes) = Rows1(x.prefixes), "prefixes_is_not_the_frequent_first_1_to_4_characters_and_reserved_entries")
+       \cup If(NoDup(e.suffixes) /\ Range(e.suffixes) = Rows1(x.suffixes), "suffixes_is_not_the_frequent_last_1_to_4_characters_and_reserved_entries")
        \cup If(e.nsamples = Len(KeptOf(e.bank)), "not_one_sample_per_tree_that_is_not_the_failure_placeholder")
 TInit == /\ l = 1 /\ bank = <<>> /\ InitRest
 TNext == /\ l <= Len(Trace) /\ l' = l + 1
